@@ -38,6 +38,10 @@ type Elem struct {
 	AccEnc   string `json:"accenc,omitempty"`
 	WSKey    string `json:"wskey,omitempty"`
 	LFOnly   bool   `json:"lf_only,omitempty"` // telnet line terminated by a bare LF
+	// "bad": a malformed frame (Raw) that must end the connection with the
+	// protocol error Err; "trail": bytes sent after it (never looked at)
+	Raw string `json:"raw,omitempty"`
+	Err string `json:"err,omitempty"`
 }
 
 // Msg is the observable part of a parsed server.Message.
@@ -242,6 +246,8 @@ func (e Elem) Bytes() []byte {
 		return []byte("\r\n")
 	case "native":
 		return encNative(e.Args)
+	case "bad", "trail":
+		return []byte(e.Raw)
 	case "http-get", "ws", "http-post", "options":
 		var b strings.Builder
 		hdr := func() {
@@ -321,10 +327,23 @@ func (s Stream) Encode() ([]byte, []int) {
 	return b, offs
 }
 
+// ExpectErr is the protocol error that ends the stream ("" = none).
+func (s Stream) ExpectErr() string {
+	for _, e := range s.Elems {
+		if e.Proto == "bad" {
+			return e.Err
+		}
+	}
+	return ""
+}
+
 func (s Stream) Expect() ([]Msg, string) {
 	var ms []Msg
 	var w strings.Builder
 	for _, e := range s.Elems {
+		if e.Proto == "bad" {
+			break // the connection ends here
+		}
 		m, wr := e.Expect()
 		if m != nil {
 			ms = append(ms, *m)
@@ -666,4 +685,64 @@ func region(b []byte, offs []int, elems []Elem, p int) (idx int, proto, reg stri
 		}
 	}
 	return idx, proto, reg, true
+}
+
+// ---- streams that end in a protocol error -------------------------------------
+
+// badFrames: malformed frames whose handling is a framing error of
+// readNextCommand (ReadMessages keeps the messages parsed before it in the same
+// read and returns them together with the error). Not in the list, on purpose:
+// a complete HTTP request WITHOUT a command ("GET / HTTP/1.1"), for which
+// ReadMessages returns (nil, errInvalidHTTP) and drops the same read's messages
+// (impl-mirrored, see notes).
+var badFrames = []struct{ raw, err string }{
+	{"*1\r\n$x\r\n", "Protocol error: invalid bulk length"},
+	{"*2\r\n$3\r\nGET\r\n$1x\r\n", "Protocol error: invalid bulk length"},
+	{"*x\r\n", "Protocol error: invalid multibulk length"},
+	{"*-3\r\n", "Protocol error: invalid multibulk length"},
+	{"*1\n", "Protocol error: invalid multibulk length"},
+	{"*1\r\n#4\r\n", "Protocol error: expected '$', got '#'"},
+	{"*1\r\n$3\r\nabcXY", "Protocol error: invalid bulk length"},
+	{"*2\r\n$4\r\nECHO\r\n$2\nab\r\n", "Protocol error: invalid bulk length"},
+	{"*1\r\n$-2\r\n", "Protocol error: invalid bulk length"},
+	{"*1\r\n$9223372036854775807\r\n", "Protocol error: invalid bulk length"},
+	{"SET k1 \"unbalanced\r\n", "Protocol error: unbalanced quotes in request"},
+	{"SET k1 a'b c\r\n", "Protocol error: unbalanced quotes in request"},
+	{"DEL 'k1'x a\r\n", "Protocol error: unbalanced quotes in request"},
+	{"$x SET\r\n", "Protocol error: invalid message"},
+	{"$-1 x\r\n", "Protocol error: invalid message"},
+	{"$3 SETXY", "Protocol error: invalid message"},
+	{"$9223372036854775807 x\r\n", "Protocol error: invalid bulk length"},
+	{"GET nopath HTTP/1.1\r\n\r\n", "invalid HTTP request"},
+	{"GET /a b HTTP/1.1\r\n\r\n", "invalid HTTP request"},
+	{"PUT /ping HTTP/1.1\r\n\r\n", "invalid HTTP request"},
+	{"GET /%zz HTTP/1.1\r\n\r\n", "invalid HTTP request"},
+}
+
+var trailers = []string{"", "", "*1\r\n$4\r\nPING\r\n", "PING\r\n", "garbage", "\r\n", "*1\r\n$4\r\nPI"}
+
+// drawErrStream: 1-n valid commands (any of the allowed encodings, writes
+// included) followed by ONE malformed frame and optional trailing bytes.
+func drawErrStream(t *rapid.T, o streamOpts, maxPrefix int, trail bool) Stream {
+	ns := gen.DrawNames(t)
+	o.noEmpties = false
+	n := rapid.IntRange(1, maxPrefix).Draw(t, "nprefix")
+	var s Stream
+	for i := 0; i < n; i++ {
+		s.Elems = append(s.Elems, drawElem(t, ns, o))
+	}
+	// at least one write among the valid commands
+	if rapid.Bool().Draw(t, "forcewrite") {
+		w := Elem{Proto: "resp", Args: []string{"SET", ns.Keys[0], ns.IDs[0], "POINT", "1", "2"}}
+		at := rapid.IntRange(0, len(s.Elems)).Draw(t, "writeat")
+		s.Elems = append(s.Elems[:at], append([]Elem{w}, s.Elems[at:]...)...)
+	}
+	bf := rapid.SampledFrom(badFrames).Draw(t, "bad")
+	s.Elems = append(s.Elems, Elem{Proto: "bad", Raw: bf.raw, Err: bf.err})
+	if trail {
+		if tr := rapid.SampledFrom(trailers).Draw(t, "trail"); tr != "" {
+			s.Elems = append(s.Elems, Elem{Proto: "trail", Raw: tr})
+		}
+	}
+	return s
 }
